@@ -93,7 +93,10 @@ def cases(tier="quick", seed=1, maps=(0, 1, 2, 3), thin=1):
                     continue
                 opc = mp + bytes([op])
                 for k, mr in enumerate(mrs):
-                    if thin > 1 and (op * 31 + k + len(p)) % thin:
+                    # thinning must keep every mod value of every (prefix, opcode) row: the class list cycles through mod = 11, 00, 01, 10,
+                    # so the choice is made per cycle (k // 4) and shifted per mod (k % 4) - never by the parity of k alone, which
+                    # removed all register forms of every second row
+                    if thin > 1 and (op * 31 + k // 4 + k % 4 + len(p)) % thin:
                         continue
                     fill = PATTERN if quick else _pick([PATTERN] + BOUNDARY_FILLS, (seed, p, opc, mr), 1)[0]
                     if (mr >> 6) != 3 and (mr & 7) == 4:
